@@ -60,6 +60,7 @@ def run(chk):
                         ms=[2, 4, 16], prop_tags=tags, seed=chk.seed + 3)
     joinfam.random_join(chk, [k + "!tiny" for k in KINDS], "tiny-weights", runs=2 if quick else 8, length=30, nitems=20,
                         ms=[2, 4, 16], prop_tags=tags, seed=chk.seed + 4)
+    joinfam.big_join(chk, ["pmh"])
     chk.cov["explanation"] = "design-level exhaustive at small sizes; code-level all histories of the stated shape + sampled streams"
 
 
